@@ -133,6 +133,9 @@ def handle(req):
                 held[pname] = (vals, wts, vals.copy(), wts.copy())
                 disp.set_weights(vals, wts)
                 m.set_dispersion(pname, disp)
+            elif pname in req.get("fresh_dispersers", []):
+                # a disperser constructed with no arguments: 35 points over 3 sigmas until the caller says otherwise
+                m.set_dispersion(pname, _w.GaussianDispersion())
             elif d.get("type") != "gaussian":
                 m.set_dispersion(pname, _w.GaussianDispersion())
         for k, v in req["settings"]:
@@ -450,6 +453,15 @@ def main(run):
         h = [dict(op="sasview", model=mname, q=qq, cutoff=1e-5, settings=st) for qq in order]
         h.insert(2, dict(op="sasview_clone", model=mname, q=order[1], cutoff=1e-5, settings=st))
         histories.insert(1, h)
+    # corpus: a SasView object is given a DEFAULT-constructed disperser and only its width is set (35 points over 3 sigmas
+    # is what the library documents for it) - after other evaluations in the process have used the same distribution
+    # type with other numbers, through the calculator and through another object
+    sph_ = infos.get("sphere") or load_model_info("sphere")
+    st_full = sasview_settings({"radius": 60.0, "radius_pd": 0.3, "radius_pd_n": 80, "radius_pd_nsigma": 2.0}, sph_)
+    st_dflt = [kv for kv in sasview_settings({"radius": 55.0, "radius_pd": 0.2}, sph_) if kv[0] not in ("radius.npts", "radius.nsigmas")]
+    histories.insert(1, [dict(op="sasview", model="sphere", q=[[0.01, 0.05, 0.2]], cutoff=0.0, settings=st_full),
+                         dict(op="call_kernel", model="sphere", q=[[0.01, 0.05, 0.2]], cutoff=0.0, pars={"radius": 50.0, "radius_pd": 0.1, "radius_pd_n": 10, "radius_pd_nsigma": 2.0}),
+                         dict(op="sasview", model="sphere", q=[[0.01, 0.05, 0.2]], cutoff=0.0, settings=st_dflt, fresh_dispersers=["radius"])])
     # corpus: a long thin cylinder at high q (sensitive to the size of the orientation quadrature), a variant of the
     # model with 150 Gauss points is derived, the model is loaded again by name and evaluated
     cyl_ = dict(op="call_kernel", model="cylinder", q=[[0.1, 0.2, 0.3]], cutoff=0.0, pars={"radius": 20.0, "length": 3000.0})
